@@ -679,9 +679,12 @@ impl<'forest, I: Interner> SolveState<'forest, I> {
                 selected_subgoal.subgoal_table,
                 selected_subgoal.answer_index,
             );
+            // (An answer that still has delayed subgoals may turn out not to
+            // hold, so even a trivial one may be followed by a better one.)
             if !self.forest.tables[selected_subgoal.subgoal_table]
                 .table_goal
                 .is_trivial_substitution(self.context.program().interner(), &answer.subst)
+                || !answer.subst.value.delayed_subgoals.is_empty()
             {
                 let mut next_subgoal = selected_subgoal.clone();
                 next_subgoal.answer_index.increment();
